@@ -438,14 +438,6 @@ class BayesianNetwork(DAG):
                         f"CPD for {node} doesn't have state names defined for all the variables."
                     )
 
-                # Check if the number of state names matches the cardinality.
-                if isinstance(cpd, TabularCPD):
-                    for var, card in zip(cpd.variables, cpd.cardinality):
-                        if len(cpd.state_names[var]) != card:
-                            raise ValueError(
-                                f"CPD for {node}: number of state names of {var} doesn't match its cardinality."
-                            )
-
                 # Check if the values of the CPD sum to 1.
                 if not cpd.is_valid_cpd():
                     raise ValueError(
